@@ -16,8 +16,8 @@ def instances(tier):
     n_list = 100000 if tier == "thorough" else 20000
     I = []
 
-    def add(name, flags, text, want, extra=None):
-        I.append(dict(name=name, flags=flags, text=text, want=want, extra=extra or []))
+    def add(name, flags, text, want, extra=None, expect=None):
+        I.append(dict(name=name, flags=flags, text=text, want=want, extra=extra or [], expect=expect))
     ign = FLAGBITS["IGNORE_UNKNOWN"]
     add("deep-unknown-sections", ign, "u { " * deep + "} " * deep + "\ns = ok", 0)
     add("deep-unknown-sections-open", ign, "u { " * deep, 1)
@@ -63,6 +63,24 @@ def instances(tier):
     add("include-two-args", 0, "include(a, b)", 1)
     add("include-unterminated-inside", 0, 'include("$R/open.conf")\ns = after', 1,
         extra=["fs file $R/open.conf %s" % enc('s = "never closed')])
+    # an included file that ends inside a comment / a string while the including text goes on
+    for cf in (0, FLAGBITS["COMMENTS"]):
+        add("include-open-comment-inside-%d" % cf, cf, 'include("$R/openc.conf")\n tail */\ns = after', None,
+            extra=["fs file $R/openc.conf %s" % enc('i = 1 /* never closed ' + "c" * 40)])
+        add("include-open-comment-long-%d" % cf, cf, 'include("$R/openl.conf")\n' + "t" * 100 + ' */\ns = after', None,
+            extra=["fs file $R/openl.conf %s" % enc('i = 1 /* ' + "c" * 5000)])
+    add("include-open-sq-inside", 0, 'include("$R/opens.conf")\ns = after', 1,
+        extra=["fs file $R/opens.conf %s" % enc("s = 'never closed")])
+    # strings whose length sits on the growth steps of the scanner's scratch buffer, each the longest so far
+    lens = [n + d for n in (32, 64, 96, 128, 160, 256, 512, 1024) for d in (-1, 0, 1)]
+    for q in ('"', "'"):
+        vals = [chr(97 + k % 26) * n for k, n in enumerate(lens)]
+        add("buffer-steps-%s" % ("dq" if q == '"' else "sq"), 0, "s = %sx%s\nl = {%s}" % (q, q, ", ".join(q + v + q for v in vals)), 0,
+            expect={"s": ["x"], "l": vals})
+    vals = [chr(97 + k % 26) * n for k, n in enumerate(lens)]
+    add("buffer-steps-bare", 0, "s = x\nl = {%s}" % ", ".join(vals), 0, expect={"s": ["x"], "l": vals})
+    add("buffer-steps-comments", FLAGBITS["COMMENTS"], "".join("/* %s */\ns = v%d\n" % ("k" * n, n) for n in lens), 0,
+        expect={"s": ["v%d" % lens[-1]]})
     for c in range(1, 256):
         add("single-byte-%d" % c, 0, chr(c), None)
         add("value-byte-%d" % c, 0, "s = a" + chr(c), None)
@@ -85,7 +103,7 @@ def run(verdict, exe, tier, tag="stress", sigprefix="stress", only=None):
     if only:
         insts = [i for i in insts if i["name"].startswith(tuple(only))]
     for k, inst in enumerate(insts):
-        lines = list(SCHEMA) + inst["extra"] + ["init c1 S %d" % inst["flags"], "dump 0",
+        lines = list(SCHEMA) + inst["extra"] + ["init c1 S %d" % inst["flags"], "dump %d" % (1 if inst.get("expect") else 0),
                  "parsebuf c1 %s" % enc(inst["text"]), "dump 1", "print c1",
                  "parsebuf c1 %s" % enc("s = again"), "free c1"]
         bid = "s%d" % k
@@ -115,6 +133,10 @@ def run(verdict, exe, tier, tag="stress", sigprefix="stress", only=None):
             probs.append("return code %d, expected %d" % (first["ret"], inst["want"]))
         if first["ret"] not in (0, 1, -1):
             probs.append("return code %d is neither success nor a parse/file error" % first["ret"])
+        for nm, want_v in (inst.get("expect") or {}).items():
+            got = [o for o in first["ctx"]["c1"]["o"] if o["n"] == nm][0]["v"]
+            if got != want_v:
+                probs.append("%s holds %r, the text says %r" % (nm, [x[:40] for x in got][:6], [x[:40] for x in want_v][:6]))
         if first["ret"] == 1 and not first["diag"]:
             probs.append("parse error without a diagnostic")
         if again["out"] != g["begin"]["out"]:
